@@ -22,7 +22,8 @@ for id in "${ids[@]}"; do
   out=$(./check $prop --tier quick 2>&1); rc=$?
   git -C $REPO checkout -q HEAD -- .; git -C $REPO clean -fdq
   cls=$(echo "$out" | grep -m1 "^  class=" | grep -o "class=[^ ]* key=[^ ]*")
-  if [ $rc -eq 1 ] && echo "$out" | grep -q "^VIOLATION property=$prop "; then echo "$id $prop caught $cls"
+  eff=$(echo "$out" | grep -m1 -oE "^$prop: [0-9]+ runs .* [0-9]+ violation" | sed -E 's/^[A-Z0-9]+: ([0-9]+) runs.* ([0-9]+) violation/after \1 runs, \2 reports/')
+  if [ $rc -eq 1 ] && echo "$out" | grep -q "^VIOLATION property=$prop "; then echo "$id $prop caught $cls ($eff)"
   elif [ "$verdict" = "missed" ] && [ $rc -eq 0 ]; then echo "$id $prop not caught (recorded as a miss: outside what the simulation runs, see meta.json)"
   else echo "$id $prop NOT-CAUGHT rc=$rc $(echo "$out" | grep -m1 HARNESS)"; bad=1; fi
   for f in replays/${prop}-*.json; do rm -f "$f"; done
